@@ -184,7 +184,7 @@ def hbond_contacts(res, include_o2p=True, reach=HBOND_MAX + 0.01):
     owner_a = np.array(owner)
     # dense distance matrix in blocks to bound memory
     n = len(X)
-    B = 1500
+    B = max(16, min(1500, 4_000_000 // max(1, n)))  # rows per block: the temporary difference array stays below ~100 MB
     for s in range(0, n, B):
         D = np.sqrt(((X[s : s + B, None, :] - X[None, :, :]) ** 2).sum(-1))
         ii, jj = np.nonzero(D < reach)
@@ -273,7 +273,7 @@ def stacking_candidates(res, reach=STACK_MAX + 0.01):
         return out
     C = np.array(cent)
     n = len(C)
-    B = 2000
+    B = max(16, min(2000, 4_000_000 // max(1, n)))
     for s in range(0, n, B):
         D = np.sqrt(((C[s : s + B, None, :] - C[None, :, :]) ** 2).sum(-1))
         ii, jj = np.nonzero(D < reach)
@@ -372,7 +372,7 @@ def backbone_contacts(res, acceptors, reach=HBOND_MAX + 0.01):
     if not dx or not ax:
         return out
     DX, AX = np.array(dx), np.array(ax)
-    B = 2000
+    B = max(16, min(2000, 4_000_000 // max(1, len(AX))))
     for s in range(0, len(DX), B):
         D = np.sqrt(((DX[s : s + B, None, :] - AX[None, :, :]) ** 2).sum(-1))
         ii, jj = np.nonzero(D < reach)
